@@ -36,6 +36,13 @@ func getController(name string) (*Controller, error) {
 		return nil, ErrShuttingDown
 	}
 
+	// check again, another goroutine may have started the database while we
+	// were waiting for the lock
+	controller, ok = controllers[name]
+	if ok {
+		return controller, nil
+	}
+
 	// get db registration
 	registeredDB, err := getDatabase(name)
 	if err != nil {
